@@ -213,7 +213,9 @@ MANIFEST = dict(
          "The model is tied to /repo on every run: serialize byte-exact and parse(serialize(x)) on generated ordered maps, parse on images of "
          "an independent reference writer with layout knobs that the extracted conforms_packb accepted first, the game file, and (C05 part) "
          "outcome category / value / allocation size on malformed inputs in both build profiles.",
-    note=TB + "Modelled, not verified: encoding_rs Shift_JIS (A-codec; names travel in encoded form, losslessness checked per name by the "
+    note=TB + "Domain of 'Shift-JIS-representable names': names s with decode(encode s) = s - U+00A5, U+203E, U+2212 encode without error "
+              "but come back as U+005C, U+007E, U+FF0D and are outside it. "
+              "Modelled, not verified: encoding_rs Shift_JIS (A-codec; names travel in encoded form, losslessness checked per name by the "
               "harness), Cursor / IndexMap (A-std), usize sums in serialize cannot overflow (A-usize). serialize truncates silently above "
               "65535 files or 4 GiB (`as u16` / `as u32`): stated as hypotheses, outside the property. Defects F7 (todo!() on a wrong "
               "magic) and F8 (buffer sized by an unchecked field) were repaired in /repo; the model describes the repaired code.",
